@@ -28,6 +28,13 @@ def small_problem(ps, P, optional=True, resources=True, name="pb"):
     return pb, t1, t2
 
 
+def any_verbosity(P):
+    """the verbosity is a free parameter: what the solver prints on the way must not change what it computes"""
+    P.assume(P.int("verbosity") >= 0)
+    P.assume(P.int("verbosity") <= 2)
+    return P.int("verbosity")
+
+
 def ghost_of(solver):
     return solver._solver
 
@@ -329,7 +336,10 @@ class DebugCore(Contract):
     bounded = "problems with 2 tasks and 2..3 user constraints; unsat cores: every singleton, every pair and the whole set of tracked assertions"
 
     def cases(self, tier):
-        return [dict(extra=e, res=r) for e in (0, 1) for r in (False, True)] + [dict(extra=1, res=False, opt=True), dict(extra=0, res=False, ind=True)]
+        out = [dict(extra=e, res=r) for e in (0, 1) for r in (False, True)] + [dict(extra=1, res=False, opt=True), dict(extra=0, res=False, ind=True)]
+        # the solver initialised again before the solve (e.g. to pick up a constraint declared in between)
+        out += [dict(extra=0, res=False, reinit=True), dict(extra=1, res=True, reinit=True)]
+        return out
 
     def scenario(self, ps, P, case):
         pb, t1, t2 = small_problem(ps, P, optional=False, resources=case["res"])
@@ -352,7 +362,10 @@ class DebugCore(Contract):
             # a constraint holding several assertions (one per interval and busy interval)
             P.assume(P.int("u") >= 0)
             cs.append(ps.ResourceUnavailable(resource=pb.workers["w"], list_of_time_intervals=[(P.int("u"), P.int("u") + 2), (P.int("u") + 4, P.int("u") + 5)]))
-        solver = ps.SchedulingSolver(problem=pb, debug=True)
+        solver = ps.SchedulingSolver(problem=pb, debug=True, verbosity=any_verbosity(P))
+        if case.get("reinit"):
+            solver.initialize()
+            solver.initialize()
         if P.symbolic:
             printed = []
             solver._psvc_printed = printed
@@ -407,6 +420,10 @@ class DebugCore(Contract):
                 owner[name] = None
                 basic_ids.add(f.get_id())
         out.append(Clause("invariant[every tracked formula belongs to a top-level constraint or is a basic rule]", z3.BoolVal(ok), props=("C19",), kind="invariant", note=why, bounded=self.bounded))
+        # z3's core is a set of tracked assertions that is unsatisfiable *together with everything untracked*: the
+        # diagnosis is only about the listed constraints and the basic rules if no user constraint sits there untracked
+        loose = [f for fr in G.frames for f, n in fr if n is None and any(holds(c, f) for c in top)]
+        out.append(Clause("invariant[no assertion of a user constraint is on the stack untracked]", z3.BoolVal(not loose), props=("C19",), kind="invariant", note=str(loose[:2]), bounded=self.bounded))
         if G.last == z3.unsat and ctx["res"] is False:
             core = getattr(G, "core", [])
             names = [c.name for c in core]
@@ -450,11 +467,15 @@ def _debug_native_search(case, params, ob):
         t1 = ps.FixedDurationTask(name="t1", duration=3)
         w = ps.Worker(name="w")
         t1.add_required_resource(w)
-        cs = {
+        cs = {}
+        if case.get("extra"):
+            # a constraint that is only the operand of a connective, declared first (it shifts the ranks of the others)
+            cs["not_late"] = lambda: ps.Not(name="not_late", constraint=ps.TaskStartAt(name="inner", task=t1, value=11))
+        cs.update({
             "ends_early": lambda: ps.TaskEndBefore(name="ends_early", task=t1, value=5),
             "w_unavailable": lambda: ps.ResourceUnavailable(name="w_unavailable", resource=w, list_of_time_intervals=[(0, 5), (9, 11)]),
             "irrelevant": lambda: ps.TaskStartAfter(name="irrelevant", task=t1, value=0),
-        }
+        })
         for n, mk_ in cs.items():
             if only is None or n in only:
                 mk_()
@@ -488,16 +509,21 @@ def _debug_native_search(case, params, ob):
 
     buf = io.StringIO()
     with contextlib.redirect_stdout(buf):
-        res = ps.SchedulingSolver(problem=build(), debug=True).solve()
+        dbg = ps.SchedulingSolver(problem=build(), debug=True)
+        if case.get("reinit"):
+            dbg.initialize()
+            dbg.initialize()
+        res = dbg.solve()
     text = buf.getvalue()
     # one printed constraint per "->" segment; its own name comes first in the repr (nested constraints follow)
     blamed = set()
     if "Unsatisfied constraints" in text:
-        for seg in text.split("Unsatisfied constraints")[-1].split("\t -> ")[1:]:
+        # ("\t -> " in the source; rich's print, when installed, expands the tab)
+        for seg in re.split(r"(?m)^[ \t]*-> ", text.split("Unsatisfied constraints")[-1])[1:]:
             m_ = re.search(r"name='([a-z_]+)'", seg)
             if m_:
                 blamed.add(m_.group(1))
-        blamed &= {"ends_early", "w_unavailable", "irrelevant", "maybe", "force", "bounded"}
+        blamed &= {"ends_early", "w_unavailable", "irrelevant", "maybe", "force", "bounded", "not_late"}
     with contextlib.redirect_stdout(io.StringIO()):
         alone = ps.SchedulingSolver(problem=build(only=blamed)).solve()
     bad = res is False and bool(alone)
@@ -551,7 +577,7 @@ class AnotherSolution(Contract):
                 t2.add_required_resource(ps.SelectWorkers(list_of_workers=[w, ps.Worker(name="w2")], nb_workers_to_select=1))
             else:
                 t2.add_required_resource(w, dynamic=True)
-        solver = ps.SchedulingSolver(problem=pb)
+        solver = ps.SchedulingSolver(problem=pb, verbosity=any_verbosity(P))
         results = [solver.solve()]
         base = list(asserted(solver))
         models = [solver._model]
@@ -733,6 +759,7 @@ class CallSequences(Contract):
         kw = dict(optimizer=case["optimizer"])
         if case["optimizer"] == "optimize":
             kw["optimize_priority"] = "weight" if case["obj"] == "multi_max" else "lex"
+        kw["verbosity"] = any_verbosity(P)
         solver = ps.SchedulingSolver(problem=pb, **kw)
         reg_before = {k: list(getattr(pb, k)) for k in ("tasks", "workers", "constraints", "indicators", "objectives")}
         results = []
@@ -1047,3 +1074,60 @@ class EnumerateAfterOptimisation(Contract):
             Clause("native[the schedules returned are pairwise different]", z3.BoolVal(len(set(seen)) == len(seen)), props=("C12",), kind="sound", bounded=self.bounded),
             Clause("native[asking for another solution fails only when none is left]", z3.BoolVal(len(set(seen)) == ctx["total"]), props=("C12", "C13"), kind="sound", bounded=self.bounded, note=f"{len(set(seen))} enumerated, {ctx['total']} valid timings"),
         ]
+
+
+# ------------------------------------------------------------------------------ C13 / C07 repeated optimisation (bounded, native)
+@register
+class RepeatedOptimisation(Contract):
+    """bounded native layer of C13: one solver object asked to solve() again and again (with an objective, both
+    optimisers, with and without an iteration limit) answers every time what a fresh solver on a fresh copy of the
+    problem answers -- same verdict and, when it runs to the end, same optimised value.  (Under the engine a single run of the optimisation loop is
+    covered by its loop contract, for every iteration count; what that contract assumes about the solver *object* at loop
+    entry -- nothing is carried over from an earlier call -- is exercised here on the real calls.)"""
+
+    target = "solver.SchedulingSolver.solve"
+    props = ("C13", "C07")
+    native_only = True
+    bounded = "native grid: 3 tasks on one worker, horizon 9, makespan / latest start, both optimisers, max_iter none / 1 / 2 / 4, 6 solves per solver"
+
+    def cases(self, tier):
+        return [dict(obj=o, optimizer=z, max_iter=m) for o in ("makespan", "start_latest") for z in ("incremental", "optimize") for m in (None, 1, 2, 4) if not (z == "optimize" and m is not None)]
+
+    def build(self, ps, case):
+        pb = ps.SchedulingProblem(name="pb", horizon=9)
+        w = ps.Worker(name="w")
+        ts = [ps.FixedDurationTask(name=f"t{i+1}", duration=d) for i, d in enumerate((2, 1, 3))]
+        for t in ts:
+            t.add_required_resource(w)
+        ps.TaskPrecedence(task_before=ts[0], task_after=ts[2])
+        (ps.ObjectiveMinimizeMakespan if case["obj"] == "makespan" else ps.ObjectiveTasksStartLatest)()
+        kw = dict(optimizer=case["optimizer"])
+        if case["max_iter"] is not None:
+            kw["max_iter"] = case["max_iter"]
+        return pb, kw
+
+    @staticmethod
+    def value(sol, case):
+        if not sol:
+            return None
+        if case["max_iter"] is not None:
+            return "a schedule"  # stopped early: which value is reached after k improvements is not determined
+        return sol.horizon if case["obj"] == "makespan" else min(t.start for t in sol.tasks.values())
+
+    def scenario(self, ps, P, case):
+        import contextlib
+        import io
+        import processscheduler.base as base
+
+        with contextlib.redirect_stdout(io.StringIO()):
+            base.active_problem = None
+            pb, kw = self.build(ps, case)
+            ref = self.value(ps.SchedulingSolver(problem=pb, **kw).solve(), case)
+            base.active_problem = None
+            pb, kw = self.build(ps, case)
+            solver = ps.SchedulingSolver(problem=pb, **kw)
+            got = [self.value(solver.solve(), case) for _ in range(6)]
+        return dict(ref=ref, got=got)
+
+    def clauses(self, P, ctx, case):
+        return [Clause("native[each of six solve() calls on one solver answers what a fresh solver answers]", z3.BoolVal(all(g == ctx["ref"] for g in ctx["got"])), props=("C13", "C07"), kind="sound", bounded=self.bounded, note=f"fresh solver: {ctx['ref']}; the same solver six times: {ctx['got']}")]
